@@ -1,6 +1,6 @@
 """C14 — results never depend on call history (hints and cache are invisible)."""
 import re
-from ..frontend import kids, walk, qn, qtype, dtype, pos, ancestors, AnalysisBroken
+from ..frontend import kids, walk, qn, qtype, dtype, pos, ancestors, AnalysisBroken, owner_fn
 from ..expr import callee, call_args, peel, Keys
 from ..callgraph import fname
 from ..effects import var_refs, is_static_storage, extern_calls
@@ -72,8 +72,8 @@ def run(ctx):
     # ---- C14-hint
     n_loads = 0
     for k, (u, f) in G.defs.items():
-        loads = [x for x in walk(f) if (x.get('kind') == 'CXXMemberCallExpr' and _is_atomic_load(x)) or
-                 _is_mutable_member_read(u, x)]
+        loads = [x for x in walk(f) if ((x.get('kind') == 'CXXMemberCallExpr' and _is_atomic_load(x)) or
+                                       _is_mutable_member_read(u, x)) and owner_fn(x) is f]      # (a lambda is judged as itself)
         for L in loads:
             n_loads += 1
             _check_hint(ctx, k, u, f, L)
@@ -270,6 +270,8 @@ def _hint_stores(u, f):
     on mutable members."""
     out = []
     for x in walk(f):
+        if owner_fn(x) is not f:
+            continue
         if x.get('kind') == 'CXXMemberCallExpr' and callee(x) and callee(x)[1] == 'store' and callee(x)[2] is not None \
                 and re.search(r'atomic', qtype(peel(callee(x)[2])) + dtype(peel(callee(x)[2]))):
             if call_args(x):
@@ -464,17 +466,33 @@ def _check_hint(ctx, k, u, f, L):
                 construct='hint-select:%s' % fn)
         return
     env2 = dict(env)
-    env2[ubvar] = ('ptr', base[1], {'U': 1})
+    ubd = u.by_id.get(ubvar)
+    ub_direct = True
+    if ubd is not None and ubd.get('kind') == 'VarDecl' and kids(ubd):
+        x_ = peel(kids(ubd)[-1])
+        ub_direct = x_ is ub or x_ is peel(ub)
+    if ub_direct:
+        env2[ubvar] = ('ptr', base[1], {'U': 1})     # (otherwise the local holds something computed from the result: followed by PtrFlow)
     pf = PtrNorm(keys, env2)
     flow = PtrFlow(g, keys, F.never_written, seed_calls=[(ub, ('ptr', base[1], {'U': 1}))])
     st_ok = False
     for (snode, sobj, sval) in _hint_stores(u, f):
+        # (an index local written once stands for what it was initialised from)
+        for _ in range(3):
+            ps_ = peel(sval)
+            if ps_ is not None and ps_.get('kind') == 'DeclRefExpr' and (ps_.get('referencedDecl') or {}).get('id') in F.never_written:
+                dd_ = u.by_id.get(ps_['referencedDecl']['id'])
+                if dd_ is not None and dd_.get('kind') == 'VarDecl' and kids(dd_) and not (dtype(dd_) or '').rstrip().endswith('*'):
+                    sval = kids(dd_)[-1]
+                    continue
+            break
         v = flow.norm_at_ast(sval)
         ok = v is not None and v[0] == 'int' and v[2] == {'U': 1}
         st_ok = st_ok or ok
-        ctx.check(ok, 'C14-hint', '(v) value stored in %s in %s' % (keys.key(sobj), fn), snode,
-                  'the value remembered is not the index of the fall-back search result relative to the first '
-                  'table entry', construct='hint-store:%s' % fn, detail=str(v[2] if v else None))
+        ctx.check3(None if v is None else ok, 'C14-hint', '(v) value stored in %s in %s' % (keys.key(sobj), fn), snode,
+                   'the value remembered is not the index of the fall-back search result relative to the first '
+                   'table entry', construct='hint-store:%s' % fn, detail=str(v[2] if v else None),
+                   unknown_why='the value stored as the hint could not be related to the search result')
     # selected element: hint path vs fall-back
     for (use, sub) in result_uses:
         sel_h = None
@@ -533,11 +551,14 @@ def _check_hint(ctx, k, u, f, L):
                       'the result built from the entry found by the search is post-processed (%s) while the result built from '
                       'the remembered entry is not (%s): the answer depends on whether an earlier call left a matching hint'
                       % (role_f, role_h), construct='hint-role:%s' % fn, detail='%s / %s' % (role_h, role_f))
-        ctx.check(same and st_ok, 'C14-hint', '(iv) element selected via hint = element selected by search in %s' % fn, use,
+        ctx.check3(None if (sel_h is None or sel_f is None) else (same and st_ok), 'C14-hint',
+                   '(iv) element selected via hint = element selected by search in %s' % fn, use,
                   'with h the remembered search result, the hint path selects %s but the fall-back selects %s: '
                   'the answer differs depending on whether an earlier call left a matching hint'
-                  % (_fmt(sel_h, Hk), _fmt(sel_f, 'U')), construct='hint-select:%s' % fn,
-                  detail='%s == %s' % (_fmt(sel_h, Hk), _fmt(sel_f, 'U')))
+                   % (_fmt(sel_h, Hk), _fmt(sel_f, 'U')), construct='hint-select:%s' % fn,
+                   detail='%s == %s' % (_fmt(sel_h, Hk), _fmt(sel_f, 'U')),
+                   unknown_why='the entry selected on the hint path / by the fall-back search is not of a recognised form (%s / %s)'
+                   % (_fmt(sel_h, Hk), _fmt(sel_f, 'U')))
 
 
 def _role(call):
@@ -653,9 +674,11 @@ def _carried_previous(u, f, g, F, n, ea, eb):
     body = kids(loop)[-1]
     if body.get('kind') != 'CompoundStmt' or not kids(body):
         return None
-    last = kids(body)[-1]
-    if not any(y is ws[0] for y in walk(last)) or last.get('kind') not in ('BinaryOperator',):
-        return None             # the update is the last statement of the body ...
+    tops = kids(body)
+    upd_i = [i for i, s_ in enumerate(tops) if s_ is ws[0]]
+    chk_i = [i for i, s_ in enumerate(tops) if any(y is n.ast for y in walk(s_))]
+    if not upd_i or not chk_i or upd_i[0] <= chk_i[0]:
+        return None             # the update is an unconditional statement of the body, after the comparison ...
     if any(y.get('kind') in ('ContinueStmt', 'GotoStmt') for y in walk(body)):
         return None             # ... and nothing skips it
     # the comparison is reached in every iteration except through the null test: it sits at the top level of the body
